@@ -240,6 +240,18 @@ def run(ctx):
                 names = [e.id for e in (node.args[1].elts if isinstance(node.args[1], ast.Tuple) else [node.args[1]]) if isinstance(e, ast.Name)]
                 ctx.ob("C20.R5", fi0, set(names) <= searchable, "%s._search descends only into classes that define _search (%s); anything else would raise AttributeError, which the blanket handler swallows together with the entry" % (cls, names), key="%s recursion guard" % cls, node=node)
                 ctx.ob("C20.R5", fi0, set(names) >= searchable, "%s._search descends into every searchable class %s (a guard naming only %s never searches the others, e.g. a list nested in a list)" % (cls, sorted(searchable), names), key="%s recursion guard complete" % cls, node=node)
+    # the public functions call _search with the compiled pattern and the right mode: search -> first match, search_all -> all matches
+    comp = ("call", ("attr", ("free", "re"), "compile"), (("param", "pattern"),), ())
+    for cls in ("Container", "ListContainer"):
+        for meth, flag in (("search", N.FALSE), ("search_all", N.TRUE)):
+            fi, paths = own_method_paths(ctx, cls, meth)
+            r = paths[0].retval if len(paths) == 1 else None
+            args = None
+            if r is not None and r[0] == "selfcall" and r[1] == "_search":
+                args = tuple(r[2])
+            elif r is not None and r[0] == "call" and r[1][0] == "attr" and r[1][2] == "_search" and r[2][:1] == (SELF,):
+                args = tuple(r[2][1:])
+            ctx.ob("C20.R5", fi, args == (comp, flag), "%s.%s is _search(re.compile(pattern), %s)" % (cls, meth, N.show(flag)), key="%s.%s mode" % (cls, meth))
     # 'no match' is one identity-tested marker everywhere: what _search returns when nothing matched (None today) is exactly what every
     # caller's test compares the recursive result with -- by identity, never by truthiness (a falsy matched value is still a match)
     nomatch = {}
